@@ -284,7 +284,7 @@ fn hbox_json(g: &RGlyph) -> Value {
 }
 
 // ---- metrics controlled by MVAR: (tag, table, offset, signed) --------------------------------------
-const MVAR_FIELDS: [(&str, &str, usize, bool); 12] = [
+const MVAR_FIELDS: [(&str, &str, usize, bool); 22] = [
     ("hasc", "OS/2", 68, true),
     ("hdsc", "OS/2", 70, true),
     ("hlgp", "OS/2", 72, true),
@@ -297,7 +297,39 @@ const MVAR_FIELDS: [(&str, &str, usize, bool); 12] = [
     ("undo", "post", 8, true),
     ("unds", "post", 10, true),
     ("hcrs", "hhea", 18, true),
+    ("hcrn", "hhea", 20, true),
+    ("hcof", "hhea", 22, true),
+    ("sbxs", "OS/2", 10, true),
+    ("sbys", "OS/2", 12, true),
+    ("sbxo", "OS/2", 14, true),
+    ("sbyo", "OS/2", 16, true),
+    ("spxs", "OS/2", 18, true),
+    ("spys", "OS/2", 20, true),
+    ("spxo", "OS/2", 22, true),
+    ("spyo", "OS/2", 24, true),
 ];
+
+/// Default-instance values of the MVAR-controlled fields that the shared table builders leave at 0 / 1: every field
+/// gets a value of its own, so that a delta added to (or taken from) a neighbouring field is visible.
+fn distinct_metric_bases(tables: &mut Vec<(String, Vec<u8>)>) {
+    for (tag, data) in tables.iter_mut() {
+        let vals: &[(usize, i16)] = match tag.as_str() {
+            "hhea" => &[(18, 1000), (20, 200), (22, -40)],
+            "OS/2" => &[(10, 650), (12, 600), (14, 10), (16, 75), (18, 651), (20, 601), (22, 11), (24, 350), (26, 50), (28, 300)],
+            _ => continue,
+        };
+        for (off, v) in vals {
+            data[*off..*off + 2].copy_from_slice(&v.to_be_bytes());
+        }
+    }
+}
+
+/// TtFont::build with distinct_metric_bases applied.
+fn build_tt(f: &TtFont) -> Vec<u8> {
+    let mut t = f.tables();
+    distinct_metric_bases(&mut t);
+    vh::fontgen::build_sfnt(0x00010000, &t)
+}
 
 fn metric_range(tag: &str) -> (i64, i64) {
     match MVAR_FIELDS.iter().find(|m| m.0 == tag) {
@@ -1093,7 +1125,7 @@ fn build_case_font(c: &Value) -> Vec<u8> {
         f.extra_tables.push(("cvt ".into(), cvt.done()));
         f.extra_tables.push(("cvar".into(), cv.done()));
     }
-    f.build()
+    build_tt(&f)
 }
 
 // ---- generation 2: general fonts -------------------------------------------------------------------------
@@ -1310,7 +1342,7 @@ fn build_case_font2(c: &Value) -> Vec<u8> {
         recs.sort();
         f.extra_tables.push(("MVAR".into(), mvar_bytes2(&recs, c["mvar"]["recSize"].as_u64().unwrap() as usize, &ivs)));
     }
-    f.build()
+    build_tt(&f)
 }
 
 /// Generation 3: a CFF2 variable font (OTTO) from an abstract font of MC_Cff2Instance. Charstrings and
